@@ -101,6 +101,31 @@ def _guard_derefs(body, g):
     return out
 
 
+def turn_held(body, s1, s2):
+    """an async (tokio) mutex guard on a field of self is acquired before the check scope s1 and is still
+    held at the write scope s2 (serialises the whole check -> await -> write sequence)"""
+    for i, ty in enumerate(body.locals):
+        if not re.match(r"^tokio::sync::MutexGuard<", ty):
+            continue
+        defs = body.def_blocks(i)
+        if not defs:
+            continue
+        # provenance: lock() on a field of self
+        acquired = [b for b in defs if body.dominates(b, s1.call.blk)]
+        if not acquired:
+            continue
+        pv = body.provenance({"c": "copy", "p": {"l": i, "pr": [], "s": "", "ty": ""}})
+        if "tokio::sync::Mutex::lock(self." not in pv:
+            continue
+        drops = [b for b in range(body.n) if body.term(b)["k"] == "drop" and body.term(b)["p"]["l"] == i and not body.term(b)["p"]["pr"] and not body.blocks[b]["cleanup"]]
+        # after the guard is dropped the write must not be reachable any more, and no drop lies between check and write
+        after = body.reachable(drops) if drops else set()
+        between = body.reachable([s1.call.blk]) & body.bwd_reachable([s2.call.blk])
+        if s2.call.blk not in after and not (set(drops) & between):
+            return True
+    return False
+
+
 def fsm_bodies(prog):
     for body in prog.bodies.values():
         if not body.kind.startswith("coroutine") or "::tests" in body.path:
@@ -137,6 +162,9 @@ def r1_no_check_then_act(chk):
                             break
                     if hit:
                         break
+                if hit and turn_held(body, hit[0], s2):
+                    r.ok(cfg, "%s|state write under a turn mutex" % short(body.path), where(body, s2.call.blk), "check, await and write all happen while an async per-socket mutex guard is held")
+                    continue
                 if hit:
                     r.bad(cfg, key, where(body, blind[0]),
                           "the state is checked under the lock at %s, the lock is released, the task awaits (bb%d), and the state is then overwritten at %s without re-checking: two racing calls both pass the check (REQ: two sends succeed; REP: the second recv overwrites the first requester)" % (s1.call.sp.split("/")[-1] if (s1 := hit[0]) else "?", hit[1], body.term(blind[0])["sp"].split("/")[-1]))
